@@ -496,6 +496,29 @@ fn parse_command(
 	}
 
 
+	// Two groups cannot deliver to the same file:
+	// the second would replace the output of the first
+	for (index, group) in command.output_groups.iter().enumerate()
+	{
+		if let (false, Some(output_filename)) = (group.printout, &group.output_filename)
+		{
+			let used_before = command.output_groups[..index]
+				.iter()
+				.any(|g| !g.printout && g.output_filename.as_ref() == Some(output_filename));
+
+			if used_before
+			{
+				report.error(
+					format!(
+						"output filename `{}` is used by more than one output group",
+						output_filename));
+
+				return Err(());
+			}
+		}
+	}
+
+
 	#[cfg(hlorenzi_customasm_verif)]
 	crate::verif::emit("command", vec![
 		("inputs", crate::verif::V::L(command.input_filenames.iter()
